@@ -1,12 +1,12 @@
 #!/bin/bash
 # evaluate every delivered agent change that has not been evaluated yet (round r: ids <P>-(2r-1), <P>-(2r))
 cd /verif
-for d in /tmp/agent_out_C*/change* /tmp/agent2_out_C*/change* /tmp/agent3_out_C*/change* /tmp/agent4_out_C*/change* /tmp/agent5_out_C*/change* /tmp/agent6_out_C*/change* /tmp/agent7_out_C*/change* /tmp/agent8_out_C*/change* /tmp/agent9_out_C*/change* /tmp/agent10_out_C*/change*; do
+for d in /tmp/agent_out_C*/change* /tmp/agent2_out_C*/change* /tmp/agent3_out_C*/change* /tmp/agent4_out_C*/change* /tmp/agent5_out_C*/change* /tmp/agent6_out_C*/change* /tmp/agent7_out_C*/change* /tmp/agent8_out_C*/change* /tmp/agent9_out_C*/change* /tmp/agent10_out_C*/change* /tmp/agent11_out_C*/change*; do
   [ -d "$d" ] || continue
   base=$(basename $(dirname $d))
   pid=$(echo $base | sed 's/agent[0-9]*_out_//')
   k=$(basename $d | sed 's/change//')
-  case $base in agent2_*) k=$((k+2));; agent3_*) k=$((k+4));; agent4_*) k=$((k+6));; agent5_*) k=$((k+8));; agent6_*) k=$((k+10));; agent7_*) k=$((k+12));; agent8_*) k=$((k+14));; agent9_*) k=$((k+16));; agent10_*) k=$((k+18));; esac
+  case $base in agent2_*) k=$((k+2));; agent3_*) k=$((k+4));; agent4_*) k=$((k+6));; agent5_*) k=$((k+8));; agent6_*) k=$((k+10));; agent7_*) k=$((k+12));; agent8_*) k=$((k+14));; agent9_*) k=$((k+16));; agent10_*) k=$((k+18));; agent11_*) k=$((k+20));; esac
   id="$pid-$k"
   [ -f $d/patch.diff ] && [ -f $d/demo.py ] && [ -f $d/notes.md ] || continue
   [ -f seeded/$id/meta.json ] && continue
